@@ -4,8 +4,8 @@ import importlib, os, sys, time
 sys.path.insert(0, os.path.dirname(os.path.dirname(os.path.abspath(__file__))))
 from pv import k1
 modname = sys.argv[1]
-mod = importlib.import_module(modname)
-names = sys.argv[2:] or list(mod.registry().contracts)
+from pv.contract import load_registry
+names = sys.argv[2:] or list(load_registry(modname).contracts)
 t = time.time()
 res = k1.run_contracts(modname, names, os.environ.get('TIER', 'quick'), '')
 tot = dis = 0
